@@ -170,11 +170,13 @@ PartsToString(c) ==
 RefNorm(u, o) == LET c == RefNormParts(u, o) IN IF c.ok THEN PartsToString(c) ELSE u
 
 \* ------------------------------------------------------------------ fingerprint
-\* (suffix stripping proper is C08's subject - PSL.tla; this model strips the last label only and the
-\*  C06 machine swaps suffixes among single-label ones)
+\* (suffix stripping proper is C08's subject; this model knows the handful of public suffixes of ND.suffixes,
+\*  among which the C06 machine swaps)
+SufLenHost(labels) == MaxOr0({Len(sf) : sf \in {x \in ToSet(ND.suffixes) : Len(x) <= Len(labels) /\ SubSeq(labels, Len(labels) - Len(x) + 1, Len(labels)) = x}})
+StripSuffixLabels(labels) == LET k == SufLenHost(labels) IN IF k > 0 /\ Len(labels) > k THEN SubSeq(labels, 1, Len(labels) - k) ELSE labels
 RefFp(u, stripSuffix) ==
   LET c == RefNormParts(u, [DefaultOpts EXCEPT !.lang = TRUE, !.lower = TRUE])
-      host == IF stripSuffix /\ Len(c.host) > 1 THEN SubSeq(c.host, 1, Len(c.host) - 1) ELSE c.host
+      host == IF stripSuffix THEN StripSuffixLabels(c.host) ELSE c.host
   IN IF c.ok THEN PartsToString([c EXCEPT !.host = host, !.port = <<>>, !.scheme = <<>>, !.user = <<>>, !.pass = <<>>]) ELSE u
 
 =============================================================================
